@@ -3,9 +3,10 @@ import math
 
 from harness import dtwgen
 
-COQ_FILES = ["theories/BandTie.v", "gen/Gen_cmem.v", "theories/Mem.v", "theories/CBand.v", "props/C08.v"]
+COQ_FILES = ["theories/BandTie.v", "gen/Gen_cmem.v", "theories/Mem.v", "theories/CBand.v", "gen/Gen_cwps.v", "theories/CWps.v", "props/C08.v"]
 THEOREMS = [("DVProps.C08", "C08_psi_prologue_in_allocation"), ("DVProps.C08", "C08_psi_scan_in_row"),
-            ("DVProps.C08", "C08_band_write_in_buffer"), ("DVProps.C08", "C08_c_row_loop_accesses_in_buffer")]
+            ("DVProps.C08", "C08_band_write_in_buffer"), ("DVProps.C08", "C08_c_row_loop_accesses_in_buffer"),
+            ("DVProps.C08", "C08_compact_slot_in_row"), ("DVProps.C08", "C08_compact_shift_steps")]
 TRUSTED_BASE = [
     "Coq 8.16.1 kernel",
     "tools/translate_c.py: buffer length, allocation size, psi prologue bound and psi scan bounds of the four "
